@@ -5,9 +5,13 @@ import KanidmModel.KeyObject
 reset                                        -> ok
 create <srv> <classes> <now> <cid> <fresh>   -> ok | err     pre_create_transform of the entry
 txn <srv> <now> <cid> <trim> <act> [| <act>]*-> ok | err     one committed write txn; err = dropped
-      act = rv=<kids|-> rt=<secs|-> rn=<kid|-> f=<fresh>
-repl <to> <from> <trim>                      -> ok           consumer merge of <from>'s entry
-copy <to> <from>                             -> ok           refresh
+      act = rv=<kids|-> rt=<secs|-> f=<fresh>
+repl <to> <from> <trim> <kid|->              -> 1 | 0        incremental replication: 1 = the supplier
+                                                             offers KeyInternalData and the consumer merges
+                                                             it (with key <kid> retired to Retained in
+                                                             flight), 0 = not offered, entry untouched
+copy <to> <from> <origin>                    -> ok           <to> := copy of <from> (initial replication);
+                                                             <origin> = cid origin code of server <to>
 state <srv>                                  -> kid:usage:vf:status:cid,…@attrCid   (by kid)
 sign <srv> <usage> <t>                       -> <kid> | none  key used by sign/encipher/expand
 probe <srv> <usage> <kids>                   -> 1,0,…        accepts a token made with each kid
@@ -59,15 +63,15 @@ def field (pfx : String) (s : String) : Option String :=
 
 def act? (toks : List String) : Option (Action × Fresh) :=
   match toks with
-  | [rv, rt, rn, f] =>
-    match field "rv=" rv, field "rt=" rt, field "rn=" rn, field "f=" f with
-    | some rv, some rt, some rn, some f =>
+  | [rv, rt, f] =>
+    match field "rv=" rv, field "rt=" rt, field "f=" f with
+    | some rv, some rt, some f =>
       let rvl : Option (Option (List Nat)) :=
         if rv == "-" then some none else (natList? rv).map some
-      match rvl, optNat? rt, optNat? rn, fresh? f with
-      | some rv, some rt, some rn, some f => some ({ revoke := rv, rotate := rt, retain := rn }, f)
-      | _, _, _, _ => none
-    | _, _, _, _ => none
+      match rvl, optNat? rt, fresh? f with
+      | some rv, some rt, some f => some ({ revoke := rv, rotate := rt }, f)
+      | _, _, _ => none
+    | _, _, _ => none
   | _ => none
 
 /-- Split a token list at `|`. -/
@@ -80,10 +84,11 @@ def splitBar : List String → List (List String)
       | [] => [[t]]
       | g :: gs => (t :: g) :: gs
 
-abbrev St := List (Nat × Srv)
+abbrev St := List (Nat × Node)
 
-def getSrv (st : St) (i : Nat) : Option Srv := (st.find? (·.1 == i)).map (·.2)
-def putSrv (st : St) (i : Nat) (s : Srv) : St := (i, s) :: st.filter (fun e => !(e.1 == i))
+def getNode (st : St) (i : Nat) : Option Node := (st.find? (·.1 == i)).map (·.2)
+def getSrv (st : St) (i : Nat) : Option Srv := (getNode st i).map (·.srv)
+def putNode (st : St) (i : Nat) (n : Node) : St := (i, n) :: st.filter (fun e => !(e.1 == i))
 
 def showMap (m : KMap) : String :=
   showList (fun (e : Nat × KRec) =>
@@ -97,32 +102,37 @@ def handle (st : St) (line : String) : St × String :=
     match nat? i, (splitList cls).mapM usage?, nat? now, nat? cid, fresh? f with
     | some i, some cls, some now, some cid, some f =>
       match createEntry cls now cid f with
-      | some m => (putSrv st i ⟨cls, m, cid⟩, "ok")
+      | some m =>
+        (putNode st i ⟨cidOrigin cid, ⟨cls, m, cid⟩, [(cidOrigin cid, cidTs cid)]⟩, "ok")
       | none => (st, "err")
     | _, _, _, _, _ => (st, "bad-op")
   | "txn" :: i :: now :: cid :: trim :: rest =>
     match nat? i, nat? now, nat? cid, nat? trim, (splitBar rest).mapM act? with
     | some i, some now, some cid, some trim, some acts =>
-      match getSrv st i with
+      match getNode st i with
       | none => (st, "nosrv")
-      | some s =>
-        let ok := (txnMap s.loaded s.classes now cid trim s.map acts).isSome
-        (putSrv st i (s.txn acts now cid trim), if ok then "ok" else "err")
+      | some n =>
+        let ok := (txnMap n.srv.loaded n.srv.classes now cid trim n.srv.map acts).isSome
+        (putNode st i (n.txn acts now cid trim), if ok then "ok" else "err")
     | _, _, _, _, _ => (st, "bad-op")
-  | ["repl", to, frm, trim] =>
-    match nat? to, nat? frm, nat? trim with
-    | some to, some frm, some trim =>
-      match getSrv st to, getSrv st frm with
-      | some c, some sup => (putSrv st to (c.replIn sup trim), "ok")
+  | ["repl", to, frm, trim, rn] =>
+    match nat? to, nat? frm, nat? trim, optNat? rn with
+    | some to, some frm, some trim, some rn =>
+      match getNode st to, getNode st frm with
+      | some c, some sup =>
+        let supMap := match rn with
+          | some k => retainMap sup.srv.map k
+          | none => sup.srv.map
+        (putNode st to (c.pull sup supMap trim), showBool (offered sup c))
       | _, _ => (st, "nosrv")
-    | _, _, _ => (st, "bad-op")
-  | ["copy", to, frm] =>
-    match nat? to, nat? frm with
-    | some to, some frm =>
-      match getSrv st frm with
-      | some sup => (putSrv st to sup, "ok")
+    | _, _, _, _ => (st, "bad-op")
+  | ["copy", to, frm, org] =>
+    match nat? to, nat? frm, nat? org with
+    | some to, some frm, some org =>
+      match getNode st frm with
+      | some sup => (putNode st to { sup with id := org }, "ok")
       | none => (st, "nosrv")
-    | _, _ => (st, "bad-op")
+    | _, _, _ => (st, "bad-op")
   | ["state", i] =>
     match (nat? i).bind (getSrv st) with
     | some s => (st, s!"{showMap s.map}@{s.attrCid}")
